@@ -112,8 +112,30 @@ func restoreParamOrder(c *Ctx, known map[string]bool) (out map[string][]byte, no
 						cur = replaceIdent(cur, rk[len(rel)+1:], old)
 					}
 				}
-				if cur == info.Sig {
+				curNames := declParamNames(fd)
+				sameNames := len(curNames) == len(info.Params)
+				for i := 0; sameNames && i < len(curNames); i++ {
+					if curNames[i] != info.Params[i] {
+						sameNames = false
+					}
+				}
+				if cur == info.Sig && (sameNames || len(info.Params) == 0) {
 					continue
+				}
+				if cur == info.Sig {
+					// same types in the same order: a permutation only if the same names appear in a different order
+					a, b := append([]string{}, curNames...), append([]string{}, info.Params...)
+					sort.Strings(a)
+					sort.Strings(b)
+					distinct := true
+					for i := 1; i < len(a); i++ {
+						if a[i] == a[i-1] {
+							distinct = false
+						}
+					}
+					if len(a) != len(b) || strings.Join(a, "\x00") != strings.Join(b, "\x00") || !distinct || (len(a) > 0 && a[0] == "") {
+						continue // renamed parameters, not reordered ones
+					}
 				}
 				op, or, ok1 := sigParts(info.Sig)
 				np, nr, ok2 := sigParts(cur)
@@ -129,17 +151,41 @@ func restoreParamOrder(c *Ctx, known map[string]bool) (out map[string][]byte, no
 				if strings.HasPrefix(np[len(np)-1], "...") != strings.HasPrefix(op[len(op)-1], "...") {
 					continue
 				}
-				// stable matching per type
+				// matching per type: by name where the reviewed names are known and still present, else in order
 				usedOld := make([]bool, len(op))
 				toOld := make([]int, len(np))
-				for i, t := range np {
+				for i := range toOld {
 					toOld[i] = -1
+				}
+				if len(info.Params) == len(op) && len(curNames) == len(np) {
+					for i, t := range np {
+						for j, u := range op {
+							if !usedOld[j] && u == t && curNames[i] != "" && curNames[i] != "_" && curNames[i] == info.Params[j] {
+								usedOld[j], toOld[i] = true, j
+								break
+							}
+						}
+					}
+				}
+				for i, t := range np {
+					if toOld[i] >= 0 {
+						continue
+					}
 					for j, u := range op {
 						if !usedOld[j] && u == t {
 							usedOld[j], toOld[i] = true, j
 							break
 						}
 					}
+				}
+				identity := true
+				for i, j := range toOld {
+					if i != j {
+						identity = false
+					}
+				}
+				if identity {
+					continue
 				}
 				obj, _ := p.TypesInfo.Defs[fd.Name].(*types.Func)
 				if obj == nil {
